@@ -230,7 +230,7 @@ func runC33(c *Ctx) {
 		c.R.Check("R-version", "SpecialContextCheck|table", okAll, c.pos(sc.Pos()), detail)
 	}
 
-	dup := namedCall("IsSidechainTxHashDuplicate")
+	dup := orWrappers(namedCall("IsSidechainTxHashDuplicate"))
 	for _, ver := range []string{"V0", "V1", "V2"} {
 		f := c.fn(txpkg, wtype, "checkWithdrawFromSideChainTransaction"+ver)
 		if f == nil {
@@ -351,62 +351,67 @@ func runC33(c *Ctx) {
 	}
 
 	// signer handling
-	sf := c.fn(txpkg, "", "checkSchnorrWithdrawFromSidechain")
-	if sf != nil {
+	sf0 := c.fn(txpkg, "", "checkSchnorrWithdrawFromSidechain")
+	if sf0 != nil {
 		unm := func(cm *ssa.CallCommon) bool { f := cm.StaticCallee(); return f != nil && f.Name() == "Unmarshal" }
-		calls := ssau.CallsIn(sf, unm)
-		if len(calls) == 0 {
-			c.R.Check("G-signers", "signers|every index contributes a key", false, c.pos(sf.Pos()), "no crypto.Unmarshal of an arbiter key")
-		} else {
-			cut := ssau.NewCut()
-			for _, ci := range calls {
-				cut.AddInstr(ci)
-			}
-			c.iterCut("G-signers", "signers|every index contributes a key", sf, calls[0].Block(), 0, cut, "adding arbiters[index].NodePublicKey to the aggregate")
-			call := calls[0].(*ssa.Call)
-			okKey := ssau.DependsOn(call.Call.Args[len(call.Call.Args)-1], func(x ssa.Value) bool { return ssau.IsFieldOf(x, "ArbiterInfo", "NodePublicKey") }) &&
-				ssau.DependsOn(call.Call.Args[len(call.Call.Args)-1], func(x ssa.Value) bool { return methodCallNamed(x, "GetCrossChainArbiters") })
-			c.R.Check("G-signers", "signers|key = arbiters[index].NodePublicKey", okKey, c.posOf(call), "the aggregated key comes from GetCrossChainArbiters()[index].NodePublicKey")
-			// index guards under validateSignerIndexes
-			var idx *ssa.IndexAddr
-			for _, b := range sf.Blocks {
-				for _, in := range b.Instrs {
-					if ia, ok := in.(*ssa.IndexAddr); ok && methodCallNamed(ssau.Unwrap(ia.X), "GetCrossChainArbiters") {
-						idx = ia
-					}
+		// the signer loop may live in a helper that receives the arbiters and the signer list
+		sf, via := c.relocateVia(sf0, func(g *ssa.Function) bool { return len(ssau.CallsIn(g, unm)) > 0 })
+		withVia(via, func() {
+			calls := ssau.CallsIn(sf, unm)
+			if len(calls) == 0 {
+				c.R.Check("G-signers", "signers|every index contributes a key", false, c.pos(sf.Pos()), "no crypto.Unmarshal of an arbiter key")
+			} else {
+				cut := ssau.NewCut()
+				for _, ci := range calls {
+					cut.AddInstr(ci)
 				}
-			}
-			if idx != nil {
-				base := ssau.NewCut()
-				// assume validateSignerIndexes == true
-				for _, i := range ssau.Ifs(sf) {
-					x, neg := ssau.StripNot(i.Cond)
-					if paramNamed(x, "validateSignerIndexes") {
-						base.AddEdge(i.Block(), ssau.Arm(i, neg)) // remove the arm taken when the flag is false
-					}
-				}
-				guard := func(name string, sel IfArm) {
-					cut := base.Clone()
-					n := 0
-					for _, i := range ssau.Ifs(sf) {
-						if m, arm := sel(i); m {
-							n++
-							cut.AddEdge(i.Block(), ssau.Arm(i, arm))
+				c.iterCut("G-signers", "signers|every index contributes a key", sf, calls[0].Block(), 0, cut, "adding arbiters[index].NodePublicKey to the aggregate")
+				call := calls[0].(*ssa.Call)
+				okKey := ssau.DependsOn(call.Call.Args[len(call.Call.Args)-1], func(x ssa.Value) bool { return ssau.IsFieldOf(x, "ArbiterInfo", "NodePublicKey") }) &&
+					ssau.DependsOn(call.Call.Args[len(call.Call.Args)-1], func(x ssa.Value) bool { return methodCallNamed(x, "GetCrossChainArbiters") })
+				c.R.Check("G-signers", "signers|key = arbiters[index].NodePublicKey", okKey, c.posOf(call), "the aggregated key comes from GetCrossChainArbiters()[index].NodePublicKey")
+				// index guards under validateSignerIndexes
+				var idx *ssa.IndexAddr
+				for _, b := range sf.Blocks {
+					for _, in := range b.Instrs {
+						if ia, ok := in.(*ssa.IndexAddr); ok && methodCallNamed(ssau.Unwrap(ia.X), "GetCrossChainArbiters") {
+							idx = ia
 						}
 					}
-					ok := n > 0 && !ssau.ReachFromEntry(sf, cut).Instr(idx)
-					c.R.Check("G-signers", "signers|"+name, ok, c.posOf(idx), "with validateSignerIndexes, arbiters[index] must be behind "+name)
 				}
-				guard("index < len(arbiters)", condCmp(anyVal, isLenOf(func(v ssa.Value) bool { return methodCallNamed(v, "GetCrossChainArbiters") }), token.GEQ, false))
-				var set *seenSet
-				for _, s := range findSeenSets(sf) {
-					s := s
-					set = &s
-					c.R.Check("G-signers", "signers|inserted index = looked-up index", s.update.Key == s.lookup.Index, c.posOf(s.update), "the duplicate set is keyed by the signer index")
+				if idx != nil {
+					base := ssau.NewCut()
+					// assume validateSignerIndexes == true
+					for _, i := range ssau.Ifs(sf) {
+						x, neg := ssau.StripNot(i.Cond)
+						if paramNamed(x, "validateSignerIndexes") {
+							base.AddEdge(i.Block(), ssau.Arm(i, neg)) // remove the arm taken when the flag is false
+						}
+					}
+					guard := func(name string, sel IfArm) {
+						cut := base.Clone()
+						n := 0
+						for _, i := range ssau.Ifs(sf) {
+							if m, arm := sel(i); m {
+								n++
+								cut.AddEdge(i.Block(), ssau.Arm(i, arm))
+							}
+						}
+						ok := n > 0 && !ssau.ReachFromEntry(sf, cut).Instr(idx)
+						c.R.Check("G-signers", "signers|"+name, ok, c.posOf(idx), "with validateSignerIndexes, arbiters[index] must be behind "+name)
+					}
+					guard("index < len(arbiters)", condCmp(anyVal, isLenOf(func(v ssa.Value) bool { return methodCallNamed(ssau.Unwrap(v), "GetCrossChainArbiters") }), token.GEQ, false))
+					var set *seenSet
+					for _, s := range findSeenSets(sf) {
+						s := s
+						set = &s
+						c.R.Check("G-signers", "signers|inserted index = looked-up index", s.update.Key == s.lookup.Index, c.posOf(s.update), "the duplicate set is keyed by the signer index")
+					}
+					guard("duplicate-index set lookup == absent", lookupAbsent(func(v ssa.Value) bool { return set != nil && set.is(v) }))
 				}
-				guard("duplicate-index set lookup == absent", lookupAbsent(func(v ssa.Value) bool { return set != nil && set.is(v) }))
 			}
-		}
+		})
+		sf = sf0
 		// program code must equal the redeem script of the aggregated key
 		crs := func(cm *ssa.CallCommon) bool {
 			f := cm.StaticCallee()
@@ -419,7 +424,22 @@ func runC33(c *Ctx) {
 				return ssau.DependsOn(v, func(x ssa.Value) bool { return ssau.IsCallTo(x, crs) })
 			}, token.EQL, true)(i)
 		}
-		c.iterGuard("G-signers", "programs|code == redeem script of aggregate", sf, "program.Code == CreateSchnorrRedeemScript(sum of signer keys)", sel, 0)
+		// the per-program loop may live in a helper that receives the programs and the redeem script
+		pf, pvia := c.relocateVia(sf, func(g *ssa.Function) bool {
+			for _, i := range ssau.Ifs(g) {
+				if len(loopHeaders(i.Block())) > 0 && ssau.DependsOn(i.Cond, func(x ssa.Value) bool { return ssau.IsFieldOf(x, "Program", "Code") }) {
+					return true
+				}
+			}
+			return false
+		})
+		withVia(pvia, func() {
+			c.iterGuard("G-signers", "programs|code == redeem script of aggregate", pf, "program.Code == CreateSchnorrRedeemScript(sum of signer keys)", sel, 0)
+		})
+		if pvia != nil {
+			hp := func(cm *ssa.CallCommon) bool { return cm.StaticCallee() == pf }
+			c.G1s("G-signers", "programs|helper "+pf.Name()+" checked", sf, pf.Name(), hp, G1Opt{})
+		}
 		for _, call := range ssau.CallsIn(sf, crs) {
 			ok := ssau.DependsOn(call.Common().Args[0], func(x ssa.Value) bool { return ssau.IsCallTo(x, unm) })
 			c.R.Check("G-signers", "programs|redeem script derives from the signer keys", ok, c.posOf(call), "the redeem script key is computed from the unmarshalled signer keys")
